@@ -7,16 +7,18 @@ import (
 	"fmt"
 	"io"
 	"os"
-	"runtime"
 	"sort"
-	"strconv"
-	"sync"
 	"sync/atomic"
+	"unsafe"
+
+	"verifharness/glocal"
 )
 
 // Ctx carries the explorer's decisions for one execution. Contexts are bound per goroutine, so
 // independent executions can run in parallel inside one process.
 type Ctx struct {
+	magic uint64         // first field: tells our contexts from a foreign label pointer
+	prev  unsafe.Pointer // label value to restore on Unbind
 	// MapOrder returns a permutation (indices into the sorted key list) for the map scan at a site with n keys;
 	// nil or a nil result means sorted order.
 	MapOrder func(site, n int) []int
@@ -39,22 +41,14 @@ type Op struct {
 	N     int // bytes for write
 }
 
-var ctxs sync.Map // goroutine id -> *Ctx
+// The context is kept in the goroutine's profiler-label slot (runtime_setProfLabel / runtime_getProfLabel, the
+// hooks runtime/pprof itself uses): a goroutine-local pointer that costs a few nanoseconds to read, and that
+// goroutines started by the code under test INHERIT from their parent. Nothing in the harness uses pprof labels.
+// (see package verifharness/glocal; the harness binary is linked with -checklinkname=0 for this.)
 
-func goid() int64 {
-	var buf [64]byte
-	n := runtime.Stack(buf[:], false)
-	// "goroutine 123 ["
-	s := buf[len("goroutine "):n]
-	i := 0
-	for i < len(s) && s[i] >= '0' && s[i] <= '9' {
-		i++
-	}
-	id, _ := strconv.ParseInt(string(s[:i]), 10, 64)
-	return id
-}
+const ctxMagic = 0x76657269666b6f6f
 
-// number of bound contexts that use each hook kind: with none, the hook returns at once (no goroutine lookup)
+// number of bound contexts that use each hook kind: with none, the hook returns at once
 var nMap, nAccess, nYield, nOp int32
 
 func count(c *Ctx, d int32) {
@@ -72,25 +66,32 @@ func count(c *Ctx, d int32) {
 	}
 }
 
-// Bind attaches c to the calling goroutine until Unbind. The hook fields of c must not change while bound.
+// Bind attaches c to the calling goroutine (and to goroutines it starts from now on) until Unbind.
+// The hook fields of c must not change while bound.
 func Bind(c *Ctx) {
+	c.magic = ctxMagic
+	c.prev = glocal.Get()
 	count(c, 1)
-	ctxs.Store(goid(), c)
+	glocal.Set(unsafe.Pointer(c))
 }
 
 func Unbind() {
-	id := goid()
-	if v, ok := ctxs.Load(id); ok {
-		count(v.(*Ctx), -1)
-		ctxs.Delete(id)
+	if c := cur(); c != nil {
+		count(c, -1)
+		glocal.Set(c.prev)
 	}
 }
 
 func cur() *Ctx {
-	if v, ok := ctxs.Load(goid()); ok {
-		return v.(*Ctx)
+	p := glocal.Get()
+	if p == nil {
+		return nil
 	}
-	return nil
+	c := (*Ctx)(p)
+	if c.magic != ctxMagic {
+		return nil
+	}
+	return c
 }
 
 // Keys returns the keys of m in the order the explorer chose (default: sorted by their printed form).
